@@ -553,7 +553,7 @@ _public_ ssize_t m_mod_src_len(const m_mod_t *mod, m_src_types type) {
     /* Count only the requested type of sources; M_SRC_TYPE_END means all of them */
     int len = 0;
     if (type == M_SRC_TYPE_PS || type == M_SRC_TYPE_END) {
-        m_itr_foreach(mod->subscriptions, {
+        m_itr_foreach(mod->subscriptions, M_VERIF_LOOP(len_subs) {
             ev_src_t *src = m_itr_get(m_itr);
             if (!(src->flags & M_SRC_INTERNAL)) {
                 len++;
@@ -561,11 +561,11 @@ _public_ ssize_t m_mod_src_len(const m_mod_t *mod, m_src_types type) {
         });
     }
     
-    for (int i = M_SRC_TYPE_FD; i < M_SRC_TYPE_END; i++) {
+    for (int i = M_SRC_TYPE_FD; i < M_SRC_TYPE_END; i++) M_VERIF_LOOP(len_kinds) {
         if (type != M_SRC_TYPE_END && type != (m_src_types)i) {
             continue;
         }
-        m_itr_foreach(mod->srcs[i], {
+        m_itr_foreach(mod->srcs[i], M_VERIF_LOOP(len_srcs) {
             ev_src_t *src = m_itr_get(m_itr);
             if (!(src->flags & M_SRC_INTERNAL)) {
                 len++;
